@@ -364,7 +364,7 @@ func c06Fixed() ([]*zr.Program, []map[string]Val, []string) {
 }
 
 func checkC06(c *Ctx) {
-	c.rule = "(1) symbol-table histories: all sequences of begin/end-scope, declare, declare-const, assign, lookup over 3 names up to length 4 (quick) / 5 (thorough) plus random histories up to length 200, against a stack-of-maps model; (2) fixed probe families: for every block kind (如果/否则/再如/每当/遍历) use after block end, use before declaration, shadowing and its end, assignment to outer, same-block redeclaration (43), constants (44); for method locals/parameters/得到 names/method and type names/输入: visibility after return (normal and through a handled exception - 12 ways of raising it x {directly, inside nested blocks, inside a loop, one call deeper}: callee names gone, caller's block still rejects redeclaration, names of blocks ending afterwards gone) and reassignment; the 7 predefined names x {assign, declare, declare const, declare in block, as parameter, as loop variable, as 得到 name}; old value intact after a rejected assignment (seen through the handler); (3) random programs with inner-block shadowing; quiescent invariant after each successful run (scope depth 0, call stack empty). hand-written programs with a constructor declared in a method body / branch / loop body for a type of an enclosing block (rejected or gone afterwards; with the type in the same block it works); distinct_nontrivial = distinct histories / (family, outcome kind)"
+	c.rule = "(1) symbol-table histories: all sequences of begin/end-scope, declare, declare-const, assign, lookup over 3 names up to length 4 (quick) / 5 (thorough) plus random histories up to length 200, against a stack-of-maps model; (2) fixed probe families: for every block kind (如果/否则/再如/每当/遍历) use after block end, use before declaration, shadowing and its end, assignment to outer, same-block redeclaration (43), constants (44); for method locals/parameters/得到 names/method and type names/输入: visibility after return (normal and through a handled exception - 12 ways of raising it x {directly, inside nested blocks, inside a loop, one call deeper}: callee names gone, caller's block still rejects redeclaration, names of blocks ending afterwards gone) and reassignment; the 7 predefined names x {assign, declare, declare const, declare in block, as parameter, as loop variable, as 得到 name}; old value intact after a rejected assignment (seen through the handler); (3) random programs with inner-block shadowing; quiescent invariant after each successful run (scope depth 0, call stack empty). the same 17 bodies (redeclaration of own methods / types by 令, 恒为 and 得到, double declaration, assignment to own definitions and constants, use before declaration, names of ended blocks and returned methods, legal shadowing) as main program, as imported module and as a module behind a relay: judged alike; hand-written programs with a constructor declared in a method body / branch / loop body for a type of an enclosing block (rejected or gone afterwards; with the type in the same block it works); distinct_nontrivial = distinct histories / (family, outcome kind)"
 	c.assumptions = []string{"declaring a local with the name of a parameter / loop variable / definition of the same body is unspecified and not generated", "imports are probed by C15"}
 	checkScopeAPI(c)
 	progs, ins, shapes := c06Fixed()
@@ -452,6 +452,48 @@ func checkC06(c *Ctx) {
 				c.Violation("hand:"+h.name, fmt.Sprintf("%s: outcome %s %v, expected %s\nprogram:\n%s", h.name, got, resp.Err, h.want, h.src), map[string]interface{}{"req": req})
 			}
 		})
+	}
+	// the body of an imported module is a body like any other: the same text is judged in the same
+	// way whether it is the main program or a module that the main program imports
+	{
+		fn := "如何取数？\n\t输出 7\n"
+		ty := "定义狗：\n\t其名 = “旺”\n"
+		bodies := []struct{ name, src, want string }{
+			{"redeclare-own-method-by-let", fn + "令取数 = 5\n", "error:43"},
+			{"redeclare-own-method-by-yield", fn + "如何造？\n\t输出 1\n（造），得到取数\n", "error:43"},
+			{"redeclare-own-type-by-let", ty + "令狗 = 5\n", "error:43"},
+			{"redeclare-own-method-by-const", fn + "令取数恒为5\n", "error:43"},
+			{"declare-twice", "令甲 = 1\n令乙 = 2\n令甲 = 3\n", "error:43"},
+			{"declare-twice-after-a-block", "令甲 = 1\n如果 真：\n\t令甲 = 2\n令甲 = 3\n", "error:43"},
+			{"assign-own-method", fn + "取数 = 5\n", "error:44"},
+			{"assign-own-type", ty + "狗 = 5\n", "error:44"},
+			{"assign-constant", "令甲恒为1\n甲 = 2\n", "error:44"},
+			{"use-before-declaration", "令甲 = 乙\n令乙 = 1\n", "error:42"},
+			{"name-of-ended-branch", "如果 真：\n\t令内 = 1\n令外 = 内\n", "error:42"},
+			{"name-of-ended-loop", "以项遍历【1，2】：\n\t令内 = 项\n令外 = 项\n", "error:42"},
+			{"local-of-returned-method", "如何算？\n\t令局 = 1\n\t输出 局\n令甲 = （算）\n令乙 = 局\n", "error:42"},
+			{"local-of-method-left-through-handler", "如何算？\n\t令局 = 1\n\t令坏 = 1 / 0\n\n\t拦截异常：\n\t\t输出 0\n令甲 = （算）\n令乙 = 局\n", "error:42"},
+			{"legal-shadowing-in-branch", fn + "如果 真：\n\t令取数 = 5\n\t令旁 = 取数 + 1\n令果 = （取数）\n", "ok"},
+			{"legal-redeclaration-in-two-branches", "如果 真：\n\t令甲 = 1\n如果 真：\n\t令甲 = 2\n令甲 = 3\n", "ok"},
+			{"assign-predefined", "真 = 1\n", "error:*"},
+		}
+		cases := []handFiles{}
+		for _, b := range bodies {
+			wantMain, wantMod := b.want, b.want
+			if b.want == "ok" {
+				wantMain, wantMod = `text("完")`, `text("完")`
+			}
+			tail := ""
+			if b.want == "ok" {
+				tail = "输出 “完”\n"
+			}
+			cases = append(cases, handFiles{"as-main/" + b.name, map[string]string{"main.zn": b.src + tail}, wantMain})
+			cases = append(cases, handFiles{"as-module/" + b.name, map[string]string{"main.zn": "导入“模”\n输出 “完”\n", "模.zn": b.src}, wantMod})
+			cases = append(cases, handFiles{"as-module-behind-relay/" + b.name, map[string]string{"main.zn": "导入“中转”\n输出 “完”\n", "中转.zn": "导入“模”\n令转 = 1\n", "模.zn": b.src}, wantMod})
+		}
+		// what the importer sees of a module that shadows one of its own methods in a branch
+		cases = append(cases, handFiles{"as-module/shadowing-leaves-the-export-alone", map[string]string{"main.zn": "导入“模”\n输出（取数）\n", "模.zn": fn + "如果 真：\n\t令取数 = 5\n"}, "num(7)"})
+		c.runHandFiles("module-body", cases)
 	}
 	c.runRefCases("scope", progs, ins, shapes, nil, func(i int, src string, ref zr.Result, resp *Resp) {
 		quiescent(c, "scope", shapes[i], src, resp)
